@@ -181,9 +181,23 @@ Proof. vm_compute. repeat split; reflexivity. Qed.
 
 (* the check function of the correspondence harness accepts a true observation and refuses a wrong one *)
 Example ex_check :
-  cipher_check {| dc_dec := false; dc_keys := [[0x133457799BBCDFF1]]; dc_blocks := [0x0123456789ABCDEF];
-                  dc_stops := [(None, None, None); (Some 0, Some 0, Some 4)]%nat;
+  cipher_check {| dc_dec := false; dc_key_many := false; dc_keys := [[0x133457799BBCDFF1]];
+                  dc_block_many := false; dc_blocks := [0x0123456789ABCDEF];
+                  dc_stops := [(None, None, None); (Some 0, Some 0, Some 4)]%nat; dc_obs_shape := [[8]; [8]]%nat;
                   dc_obs := [[0x85E813540F0AB405]; [0x234AA9BB00000000]] |} = true
-  /\ cipher_check {| dc_dec := false; dc_keys := [[0x133457799BBCDFF1]]; dc_blocks := [0x0123456789ABCDEF];
-                  dc_stops := [(None, None, None)]%nat; dc_obs := [[0x85E813540F0AB404]] |} = false.
+  /\ cipher_check {| dc_dec := false; dc_key_many := false; dc_keys := [[0x133457799BBCDFF1]];
+                  dc_block_many := false; dc_blocks := [0x0123456789ABCDEF];
+                  dc_stops := [(None, None, None)]%nat; dc_obs_shape := [[8]]%nat; dc_obs := [[0x85E813540F0AB404]] |} = false.
+Proof. vm_compute. split; reflexivity. Qed.
+
+(* one block against two keys stopped BEFORE the first key addition: two rows (one per key) are required, one row is refused *)
+Example ex_shape :
+  cipher_check {| dc_dec := false; dc_key_many := true; dc_keys := [[0x133457799BBCDFF1]; [0x0E329232EA6D0D73]];
+                  dc_block_many := false; dc_blocks := [0x0123456789ABCDEF];
+                  dc_stops := [(Some 0, Some 0, Some 0)]%nat; dc_obs_shape := [[2; 8]]%nat;
+                  dc_obs := [[0xCC00CCFFF0AAF0AA; 0xCC00CCFFF0AAF0AA]] |} = true
+  /\ cipher_check {| dc_dec := false; dc_key_many := true; dc_keys := [[0x133457799BBCDFF1]; [0x0E329232EA6D0D73]];
+                  dc_block_many := false; dc_blocks := [0x0123456789ABCDEF];
+                  dc_stops := [(Some 0, Some 0, Some 0)]%nat; dc_obs_shape := [[8]]%nat;
+                  dc_obs := [[0xCC00CCFFF0AAF0AA]] |} = false.
 Proof. vm_compute. split; reflexivity. Qed.
